@@ -10,7 +10,7 @@
    every order [ord] in which the leaves draw their number from the atomic
    counter (any injection of the leaves into [0, part_count)). *)
 From Coq Require Import Permutation QArith Floats.SpecFloat.
-From Coupe Require Import Lib.Prelude Lib.SFloat Model.MultiJagged Proofs.MultiJaggedProofs Proofs.MultiJaggedExact Proofs.MultiJaggedSim Gen.MjGen.
+From Coupe Require Import Lib.Prelude Lib.SFloat Model.MultiJagged Proofs.MultiJaggedProofs Proofs.MultiJaggedExact Proofs.MultiJaggedSim Proofs.MultiJaggedTotal Gen.MjGen.
 Open Scope N_scope.
 
 (* the literals of multi_jagged.rs the model is written against, re-read from the source on every run *)
@@ -152,6 +152,115 @@ Theorem C11_leaf_order_irrelevant :
 Proof. exact mj_ord_indep. Qed.
 Print Assumptions C11_leaf_order_irrelevant.
 
+(* ---- which panic sites are reachable, for EVERY arithmetic (for C01) ---- *)
+
+(* Inside the contract the model returns Ok or stops at site 4 (`ret[ret.len()-1]`
+   on an empty ret: the first threshold of a call compares below zero) or site 5
+   (`*pos - drained_count` underflows: a call returned decreasing positions),
+   each time with the responsible call of compute_split_positions as witness.
+   Every other site — the index accesses driven by the scan and by the split
+   positions (always within [0, len], whatever the comparisons answer), the
+   `unwrap`s, the raw writes — is unreachable, and so are Err / OutOfFuel. *)
+Theorem C11_panic_sites_any_arithmetic :
+  forall (A : arith) D npts (wts : list (num A)) sorter blk cxlt root ord (k : N) (m : nat) p0,
+  root_ok root -> sorter_ok sorter cxlt -> 1 <= k -> k < 2 ^ 60 -> (1 <= m)%nat -> (1 <= D)%nat ->
+  length wts = npts -> length p0 = npts ->
+  outcome A npts wts blk (multi_jagged A D npts wts sorter blk root ord k m p0).
+Proof. exact mj_outcome. Qed.
+Print Assumptions C11_panic_sites_any_arithmetic.
+
+Theorem C11_panic_sites_4_5_only :
+  forall (A : arith) D npts (wts : list (num A)) sorter blk cxlt root ord (k : N) (m : nat) p0,
+  root_ok root -> sorter_ok sorter cxlt -> 1 <= k -> k < 2 ^ 60 -> (1 <= m)%nat -> (1 <= D)%nat ->
+  length wts = npts -> length p0 = npts ->
+  forall s, multi_jagged A D npts wts sorter blk root ord k m p0 = Panic s -> s = 4 \/ s = 5.
+Proof. exact mj_panic_sites. Qed.
+Print Assumptions C11_panic_sites_4_5_only.
+
+(* the two sites are excluded by two facts about the calls of
+   compute_split_positions the recursion makes: [first_threshold_not_below_zero]
+   and [mono_cuts] (the positions of one call are non-decreasing) *)
+Theorem C11_total_of_float_facts :
+  forall (A : arith) D npts (wts : list (num A)) sorter blk cxlt root ord (k : N) (m : nat) p0,
+  root_ok root -> sorter_ok sorter cxlt -> 1 <= k -> k < 2 ^ 60 -> (1 <= m)%nat -> (1 <= D)%nat ->
+  length wts = npts -> length p0 = npts ->
+  first_threshold_not_below_zero A npts wts blk -> mono_cuts A npts wts blk ->
+  exists p, multi_jagged A D npts wts sorter blk root ord k m p0 = Ok p.
+Proof. exact mj_total_of_facts. Qed.
+Print Assumptions C11_total_of_float_facts.
+
+(* binary64, either Ulps epsilon (hence RunC11.F64impl): site 4 is unreachable
+   for weights that are not negative (zeros of either sign, positive finite,
+   +infinity and even NaN allowed) — sums, products of non-negative values and
+   quotients of `usize as f64` values never carry a negative sign, by the sign
+   bookkeeping of SpecFloat alone *)
+Theorem C11_f64_first_threshold_not_below_zero : forall eps npts wts blk,
+  Forall notneg wts -> first_threshold_not_below_zero (F64eps eps) npts wts blk.
+Proof. exact f64_first_threshold. Qed.
+Print Assumptions C11_f64_first_threshold_not_below_zero.
+
+(* PARTIAL no-panic for binary64: the model returns as soon as the cuts of
+   every call are non-decreasing.  What is missing is [mono_cuts] itself for
+   binary64; it genuinely depends on float facts (docs/C11.md lists them: the
+   two refinements of consecutive thresholds start from different blocks, so
+   their running sums are different associations of the same prefix; they
+   agree when the sums are exact, and then monotonicity follows from the order
+   of the thresholds, the monotonicity of rounding and the convexity of the
+   ULP comparison). *)
+Theorem C11_f64_total_of_monotone_cuts_partial :
+  forall eps D npts wts sorter blk cxlt root ord (k : N) (m : nat) p0,
+  root_ok root -> sorter_ok sorter cxlt -> 1 <= k -> k < 2 ^ 60 -> (1 <= m)%nat -> (1 <= D)%nat ->
+  length wts = npts -> length p0 = npts -> Forall notneg wts ->
+  mono_cuts (F64eps eps) npts wts blk ->
+  exists p, multi_jagged (F64eps eps) D npts wts sorter blk root ord k m p0 = Ok p.
+Proof. exact mj_f64_total_of_monotone_cuts. Qed.
+Print Assumptions C11_f64_total_of_monotone_cuts_partial.
+
+(* ---- whole-algorithm schedule independence at exact arithmetic (for C06) ---- *)
+
+(* the block decompositions of rayon's scans (one per call of
+   compute_split_positions, [blk] maps the slab to its block lengths) change
+   nothing at all: same leaf order => the very same result *)
+Theorem C11_blocks_irrelevant_whole :
+  forall D npts (wq : list Q) sorter blk1 blk2, Forall (Qle 0) wq ->
+  forall root ord k m p0, root_ok root -> 1 <= k -> k < 2 ^ 60 -> (1 <= m)%nat ->
+  multi_jagged QA D npts wq sorter blk1 root ord k m p0 = multi_jagged QA D npts wq sorter blk2 root ord k m p0.
+Proof. exact mj_blocks_irrelevant_exact. Qed.
+Print Assumptions C11_blocks_irrelevant_whole.
+
+(* mj_sched_indep_exact: for ONE sort oracle, any two block decompositions
+   (per call) and any two leaf orders, non-negative weights: the two outputs
+   are the same partition of the elements, up to the names of the parts *)
+Theorem C11_sched_indep_exact :
+  forall D npts (wq : list Q) sorter cxlt root blk1 blk2 ord1 ord2 (k : N) (m : nat) p0 p1 p2,
+  root_ok root -> sorter_ok sorter cxlt ->
+  ord_ok ord1 (N.to_nat k) -> ord_ok ord2 (N.to_nat k) ->
+  1 <= k -> k < 2 ^ 60 -> (1 <= m)%nat ->
+  Forall (Qle 0) wq -> length p0 = npts ->
+  multi_jagged QA D npts wq sorter blk1 root ord1 k m p0 = Ok p1 ->
+  multi_jagged QA D npts wq sorter blk2 root ord2 k m p0 = Ok p2 ->
+  length p1 = npts /\ length p2 = npts /\
+  forall x y, (x < npts)%nat -> (y < npts)%nat ->
+    (nth_opt p1 x = nth_opt p1 y <-> nth_opt p2 x = nth_opt p2 y).
+Proof. exact mj_sched_indep_exact. Qed.
+Print Assumptions C11_sched_indep_exact.
+
+(* What the freedom of the SORT oracle (the order of elements with equal
+   coordinates; rayon's unstable sort is a deterministic function of the slice,
+   so this is not a schedule dependence, but it is unspecified) can change:
+   (1) nothing when no two points share a coordinate along an axis — for every
+       arithmetic the result is the same for any two admissible oracles; *)
+Theorem C11_sort_oracle_irrelevant_without_ties :
+  forall (A : arith) D npts (wts : list (num A)) blk (key : nat -> nat -> Z) sorter1 sorter2,
+  sorter_ok sorter1 (key_lt key) -> sorter_ok sorter2 (key_lt key) ->
+  (forall a x y, (x < npts)%nat -> (y < npts)%nat -> key a x = key a y -> x = y) ->
+  forall root ord k m p0,
+  multi_jagged A D npts wts sorter1 blk root ord k m p0 = multi_jagged A D npts wts sorter2 blk root ord k m p0.
+Proof. exact mj_sorter_indep_no_ties. Qed.
+Print Assumptions C11_sort_oracle_irrelevant_without_ties.
+
+(* (2) with ties it can change WHICH elements share a part: C11_sort_ties_can_change_the_partition at the end of this file. *)
+
 (* ---- non-vacuity: the oracle contracts are satisfiable, and a concrete run ---- *)
 
 (* a sort oracle: stable insertion sort on any integer key *)
@@ -206,3 +315,22 @@ Proof.
   exists [0; 0; 0; 0; 0; 0; 0; 0]. split; [vm_compute; reflexivity|].
   intros H. apply C11_check_balance_ok in H. vm_compute in H. discriminate.
 Qed.
+
+(* (2) with ties, WHICH elements share a part: three coincident points of
+       weights 1 2 1, two parts — ties in their original order give {0} | {1,2},
+       ties in the reverse order give {2} | {1,0}.  Every other statement of
+       this file (ids, JaggedTree, balance) holds for both, being proved for
+       every admissible oracle. *)
+Definition tie_key (a x : nat) : Z := 0%Z.
+Example C11_sort_ties_can_change_the_partition :
+  sorter_ok (fun a l => isort (key_lt tie_key a) l) (key_lt tie_key) /\
+  sorter_ok (fun a l => isort (key_lt tie_key a) (rev l)) (key_lt tie_key) /\
+  multi_jagged QA 2 3 [1#1; 2#1; 1#1]%Q (fun a l => isort (key_lt tie_key a) l) (fun l => [])
+               root2 N.of_nat 2 1 (repeat 99 3) = Ok [0; 1; 1] /\
+  multi_jagged QA 2 3 [1#1; 2#1; 1#1]%Q (fun a l => isort (key_lt tie_key a) (rev l)) (fun l => [])
+               root2 N.of_nat 2 1 (repeat 99 3) = Ok [1; 1; 0].
+Proof.
+  split; [apply isort_sorter_ok|]. split; [apply rev_isort_sorter_ok|].
+  split; vm_compute; reflexivity.
+Qed.
+
